@@ -506,6 +506,14 @@ func (rp *ReverseProxy) ServeHTTP(rw http.ResponseWriter, outreq *http.Request, 
 		//
 		// Most of the time forceSetTrailers should be false.
 		forceSetTrailers := len(res.Trailer) != announcedTrailerKeyCount
+		if forceSetTrailers {
+			// Trailers can only be sent with chunked framing. Flush, so that
+			// net/http does not calculate a Content-Length for a short body
+			// (and drop the trailers), as done above for announced trailers.
+			if fl, ok := rw.(http.Flusher); ok {
+				fl.Flush()
+			}
+		}
 		shallowCopyTrailers(rw.Header(), res.Trailer, forceSetTrailers)
 	}
 
